@@ -30,6 +30,7 @@ typedef struct { LatLng outer[MAXV]; LatLng hole[3][MAXV]; GeoLoop holes[3]; Geo
 static double wrap_lng(double x) { while (x > M_PI) x -= 2 * M_PI; while (x < -M_PI) x += 2 * M_PI; return x; }
 static double edge_rads(int res) { double km; getHexagonEdgeLengthAvgKm(res, &km); return km / 6371.007180918475; }
 /* a loop around (lat0,lng0): vertex k at angle th_k, radius rad_k (radians of arc, isotropic: longitudes scaled by 1/cos lat) */
+static double g_latmax = 1.48;     /* polygons keep away from the poles; the polar placement lifts this to within 1e-3 rad */
 static int make_loop(LatLng *v, int n, double lat0, double lng0, double r, double rmin, double squash, double rot, int reverse) {
     double th[MAXV];
     for (int k = 0; k < n; k++) th[k] = (k + 0.8 * (vt_rand01() - 0.5)) * 2 * M_PI / n;
@@ -39,7 +40,7 @@ static int make_loop(LatLng *v, int n, double lat0, double lng0, double r, doubl
         double qx = px * cos(rot) - py * sin(rot), qy = px * sin(rot) + py * cos(rot);
         int idx = reverse ? n - 1 - k : k;
         v[idx].lat = lat0 + qy; v[idx].lng = wrap_lng(lng0 + qx / cos(lat0));
-        if (fabs(v[idx].lat) > 1.48) return 1;
+        if (fabs(v[idx].lat) > g_latmax) return 1;
     }
     return 0;
 }
@@ -49,8 +50,12 @@ static int pick_res_for(double r, double target) {   /* resolution at which a di
     return best;
 }
 static H3Index PENT0[12];
+static double g_polar_d = 0;       /* > 0: the current polygon sits this far from a pole and must stay smaller than that */
 static void place(double *lat0, double *lng0, int i) {
-    int w = i % 8;
+    int w = i % 8; g_polar_d = 0; g_latmax = 1.48;
+    if (w == 5) { /* next to a pole (not enclosing it): 0.002 .. 0.06 rad away */
+        g_polar_d = exp(log(0.002) + vt_rand01() * (log(0.06) - log(0.002))); g_latmax = M_PI_2 - 2e-4;
+        *lat0 = (vt_randn(2) ? 1 : -1) * (M_PI_2 - g_polar_d); *lng0 = (vt_rand01() - 0.5) * 2 * M_PI; return; }
     if (w == 0) { LatLng c; cellToLatLng(PENT0[(i / 8) % 12], &c); *lat0 = c.lat + 0.002 * (vt_rand01() - 0.5); *lng0 = c.lng + 0.002 * (vt_rand01() - 0.5); }
     else if (w == 1) { *lat0 = (vt_rand01() - 0.5) * 2.4; *lng0 = (vt_randn(2) ? M_PI : -M_PI) + 0.02 * (vt_rand01() - 0.5); *lng0 = wrap_lng(*lng0); }
     else if (w == 2) { *lat0 = (vt_randn(2) ? 1 : -1) * (1.15 + 0.2 * vt_rand01()); *lng0 = (vt_rand01() - 0.5) * 2 * M_PI; }            /* high latitude */
@@ -66,6 +71,7 @@ static int gen_poly(Poly *P, int i, int quick) {
     static const double TARGETS[] = {2, 8, 30, 30, 120, 120, 400, 1500};
     double target = TARGETS[vt_randn(quick ? 7 : 8)];
     double r = exp(log(2e-6) + vt_rand01() * (log(0.25) - log(2e-6)));
+    if (g_polar_d > 0) r = g_polar_d * (0.05 + 0.4 * vt_rand01());           /* stays clear of the pole, less than 180 degrees wide */
     int kind = g_force_kind >= 0 ? g_force_kind : (int)vt_randn(10); int nh = 0; int n = 4; int rev = (int)vt_randn(2);
     P->g.holes = P->holes;
     switch (kind) {
@@ -115,7 +121,7 @@ static void fill_event(Poly *P, int maxcand) {
     PPoly PP; ppoly_from(g, &PP); HSet cs; hs_init(&cs, 4096);
     double e = edge_rads(res); int too = 0;
     { PLoop *O = &PP.l[0]; double step = 0.55 * e; double y0 = O->miny - 1.2 * e, y1 = O->maxy + 1.2 * e; long ny = (long)((y1 - y0) / step) + 1; if (ny > 3000) { step = (y1 - y0) / 3000; ny = 3000; }
-      for (long iy = 0; iy <= ny; iy++) { double y = y0 + iy * step; if (fabs(y) > 1.5) continue; double sx = step / cos(y); double x0 = O->minx - 1.2 * e / cos(y), x1 = O->maxx + 1.2 * e / cos(y); long nx = (long)((x1 - x0) / sx) + 1; if (nx > 6000) { sx = (x1 - x0) / 6000; nx = 6000; }
+      for (long iy = 0; iy <= ny; iy++) { double y = y0 + iy * step; if (fabs(y) > 1.5704) continue; double sx = step / cos(y); double x0 = O->minx - 1.2 * e / cos(y), x1 = O->maxx + 1.2 * e / cos(y); long nx = (long)((x1 - x0) / sx) + 1; if (nx > 6000) { sx = (x1 - x0) / 6000; nx = 6000; }
           for (long ix = 0; ix <= nx; ix++) { P2 p = {x0 + ix * sx, y}; int in = pt_in_loop(O, p, 0); if (!in && ploop_dist(O, p) > 1.5 * e / cos(y)) continue; LatLng q = {y, wrap_lng((double)p.x)}; H3Index h; if (!latLngToCell(&q, res, &h)) hs_add(&cs, h); if ((long)cs.n > 3L * maxcand) { too = 1; break; } } if (too) break; } }
     for (int l = 0; l < PP.nl && !too; l++) { PLoop *L = &PP.l[l]; for (int i = 0; i < L->n; i++) { P2 a = L->v[i], b = L->v[(i + 1) % L->n]; double len = hypot((double)(b.x - a.x) * cos((double)a.y), (double)(b.y - a.y)); long ns = (long)(len / (0.3 * e)) + 1; if (ns > 20000) ns = 20000;
           for (long s = 0; s <= ns; s++) { long double t = (long double)s / ns; LatLng q = {(double)(a.y + t * (b.y - a.y)), wrap_lng((double)(a.x + t * (b.x - a.x)))}; H3Index h; if (!latLngToCell(&q, res, &h)) hs_add(&cs, h); } } }
